@@ -150,6 +150,10 @@ func runC09(r *Run) {
 		}
 		return ov, ro[:]
 	}}
+	permA := perm
+	permA.alias = true
+	permA.name += " (alias mode)"
+	runFieldCase(r, "poseidon-permutation", permA, nil)
 	if q := runFieldCase(r, "poseidon-permutation", perm, nil); q != nil {
 		stats = append(stats, q.stats())
 	}
